@@ -255,12 +255,79 @@ LOAD_BUDGET = 2500
 RECURSION_LIMIT = 420
 
 
+def kept_static_real(case, dirs):
+    """resolved targets of the statically named includes still present in the prepared stream of
+    the entry under auto_reload off (document order, any depth), or None when preparing raises"""
+    from genshi.template import TemplateLoader, NewTextTemplate, MarkupTemplate
+    from genshi.template.base import INCLUDE, SUB
+    loader = TemplateLoader(list(dirs), auto_reload=False, max_cache_size=200)
+    cls = NewTextTemplate if entry_kind(case) == 'text' else MarkupTemplate
+    out = []
+
+    def walk(stream):
+        for kind, data, pos in stream:
+            if kind is SUB:
+                walk(data[1])
+            elif kind is INCLUDE:
+                href, _, fallback = data
+                if isinstance(href, str):
+                    out.append(resolve(pos[0], href))
+                if fallback:
+                    walk(fallback)
+    try:
+        walk(loader.load(case['entry'], cls=cls).stream)
+    except Exception:  # noqa
+        return None
+    return out
+
+
+def static_graph(case):
+    """file name -> resolved targets of its statically named includes (first search directory wins)"""
+    g = {}
+
+    def walk(nodes, here, acc):
+        for n in nodes:
+            k = n[0]
+            if k in ('elem', 'if', 'def', 'match'):
+                walk(n[2], here, acc)
+            elif k == 'for':
+                walk(n[3], here, acc)
+            elif k == 'include':
+                if n[1][0] == 'static' and not n[1][1].startswith('/'):
+                    acc.append(resolve(here, n[1][1]))
+                if n[3] is not None:
+                    walk(n[3], here, acc)
+    for d in case['dirs']:
+        for path, f in d:
+            if path not in g:
+                acc = []
+                if 'body' in f:
+                    walk(f['body'], path, acc)
+                g[path] = acc
+    return g
+
+
+def on_cycle(g, t):
+    """t reaches itself through at least one static include"""
+    seen, todo = set(), list(g.get(t, []))
+    while todo:
+        u = todo.pop()
+        if u == t:
+            return True
+        if u in seen:
+            continue
+        seen.add(u)
+        todo.extend(g.get(u, []))
+    return False
+
+
 def run_real(case, base):
     """both modes on one materialised tree; returns {'inline': outcome, 'runtime': outcome}"""
     os.makedirs(base, exist_ok=True)
     try:
         dirs = materialise(case, base)
-        return {'inline': render_real(case, dirs, False), 'runtime': render_real(case, dirs, True)}
+        return {'inline': render_real(case, dirs, False), 'runtime': render_real(case, dirs, True),
+                'kept': kept_static_real(case, dirs)}
     finally:
         shutil.rmtree(base, ignore_errors=True)
 
